@@ -2007,8 +2007,11 @@ func (x *actorSystem) ActorOf(ctx context.Context, actorName string) (*PID, erro
 	// dominated SendAsync/SendSync throughput under high parallelism.
 	if pidnode, ok := x.actors.nodeByName(actorName); ok {
 		pid := pidnode.value()
-		// nil: the node was emptied by a concurrent deleteNode after the lookup
-		if pid == nil || pid.IsStopping() {
+		// nil: the node was emptied by a concurrent deleteNode after the lookup.
+		// A stopped actor keeps its tree node until the death watch has handled
+		// its Terminated message, and its stopping flag is cleared by then: it
+		// must not be resolvable once the stop has returned.
+		if pid == nil || pid.IsStopping() || !pid.isStateSet(runningState) {
 			return nil, gerrors.NewErrActorNotFound(actorName)
 		}
 		return pid, nil
